@@ -15,12 +15,19 @@ def monitor(run):
     for t, e in enumerate(run.trace):
         if e['err']:
             # an oversubscribing batch must be rejected as a whole: no container of it exists afterwards
-            if e['err'] in (X.impl.E_CPU, X.impl.E_RAM) and e.get('pools_after_err') and e.get('pre_pools'):
-                for pb, pa in zip(e['pre_pools'], e['pools_after_err']):
+            if e['err'] in (X.impl.E_CPU, X.impl.E_RAM) and e.get('pools_after_err') and e.get('pre_pools') \
+                    and not e['cmd']['susp']:
+                # (pools are ticked in order: pools before the offending one have legitimately run)
+                for pi, (pb, pa) in enumerate(zip(e['pre_pools'], e['pools_after_err'])):
+                    batch = [a for a in e['cmd']['asg'] if a[4] == pi]
+                    oversold = sum(a[1] for a in batch) > pb['avail_cpu'] or \
+                        (not r['over'] and sum(F(a[2]) for a in batch) > F(pb['avail_ram']))
+                    if not oversold:
+                        continue
                     if len(pa['active']) + len(pa['suspending']) > len(pb['active']) + len(pb['suspending']):
-                        yield f'tick {t}: oversold batch was rejected after creating containers'
-                    if pa['avail_cpu'] != pb['avail_cpu'] and not e['cmd']['susp']:
-                        yield f'tick {t}: oversold batch changed free CPU'
+                        yield f'tick {t} pool {pi}: oversold batch was rejected after creating containers'
+                    if pa['avail_cpu'] != pb['avail_cpu'] or F(pa['avail_ram']) != F(pb['avail_ram']):
+                        yield f'tick {t} pool {pi}: rejected oversold batch changed the free resources'
             continue
         pre = e['pre_pools'] or None
         for pi, p in enumerate(e['pools']):
@@ -61,6 +68,7 @@ def run(ctx):
         ('G-exec-over', 100, 1500, dict(overcommit=True)),
         ('G-exec-long', 10, 150, dict(max_ticks=400, p_bad=0.0)),
         ('G-exec-twins', 80, 1200, dict(twins=True)),
+        ('G-exec-oversell', 80, 1200, dict(p_bad=1.0, bad_kinds=['asg-cpu+1', 'asg-ram+'], bad_early=True)),
     ], nontrivial=lambda run: any(e.get('new') for e in run.trace))
     out['rule'] = ('state-aware command fuzzer over Executor (1-3 pools, CPUs 1-16, RAM 0.5..256, overcommit on/off, both '
                    'container modes, tps 1..100, DAG pipelines, allocations around the demand, suspensions at boundaries, '
